@@ -264,6 +264,12 @@ def run_property(prop, tier="quick", repo_root="/repo", seed=0, only=None, verbo
         os.makedirs(os.path.join(VERIF, "evidence"), exist_ok=True)
         json.dump(evidence, open(os.path.join(VERIF, "evidence", "%s.json" % prop), "w"), indent=1, default=str)
 
+    if os.environ.get("PYVC_RECORD_BASELINE") and not violations and not undecided and not out_of_reach:
+        # maintenance only (tools/mkbaseline.py): the obligations that are discharged on the unchanged tree
+        bpath = os.path.join(VERIF, "contracts", "BASELINE_OBLIGATIONS.json")
+        b = load_json(bpath, {})
+        b[prop] = sorted(set(norm(n) for n in discharged if by_name[n][0]["obligation"].kind in ("ensures", "frame", "raises", "loop-init", "loop-preserve", "loop-decreases")))
+        json.dump(b, open(bpath, "w"), indent=0, sort_keys=True)
     for l in sorted(set(known_lines)):
         print(l)
     print("%s: %d obligations, %d discharged, %d failed, %d undecided, %d functions (%d out of reach), %.1fs" % (prop, n_obl, n_dis, len(failed), len(undecided), len(functions), len(out_of_reach), wall))
